@@ -38,6 +38,9 @@ def factories():
     add('vq-learnable-sgd', lambda: VectorQuantize(dim=3, codebook_size=5, learnable_codebook=True, ema_update=False, in_place_codebook_optimizer=partial(SGD, lr=0.5)), 3)
     add('vq-learnable-adam', lambda: VectorQuantize(dim=3, codebook_size=5, learnable_codebook=True, ema_update=False, in_place_codebook_optimizer=partial(Adam, lr=0.1)), 3)
     add('vq-orth-ema', lambda: VectorQuantize(dim=3, codebook_size=5, orthogonal_reg_weight=1., decay=0.5), 3)
+    # LONG histories (more than a thousand updates before the checkpoint): whatever a module counts or schedules on the side must be in the state_dict
+    add('vq-expiry-long-history', lambda: VectorQuantize(dim=2, codebook_size=12, threshold_ema_dead_code=2, decay=0.5), 2)
+    add('vq-cosine-expiry-long-history', lambda: VectorQuantize(dim=2, codebook_size=12, use_cosine_sim=True, threshold_ema_dead_code=2, decay=0.5), 2)
     add('vq-orth-cosine-expiry', lambda: VectorQuantize(dim=3, codebook_size=6, use_cosine_sim=True, orthogonal_reg_weight=0.5, orthogonal_reg_max_codes=4, decay=0.5, threshold_ema_dead_code=2), 3)
     add('vq-diversity', lambda: VectorQuantize(dim=3, codebook_size=5, codebook_diversity_loss_weight=0.5, decay=0.5), 3)
     add('vq-ce-commit-rotation', lambda: VectorQuantize(dim=3, codebook_size=5, commitment_use_cross_entropy_loss=True, rotation_trick=False, decay=0.5), 3)
@@ -118,6 +121,10 @@ def correspond(ctx, scale):
                 m = torch.tensor([[j < L for j in range(4)] for L in (rng.randrange(1, 5), rng.randrange(1, 5))])
                 return m
             n_pre = [0, 1, 3, 6][(rep + len(f['name'])) % 4]
+            if f['name'].endswith('-long-history'):
+                if rep > 0:
+                    break
+                n_pre = 1030
             use_outer = rep % 2 == 1 and any(True for _ in a.parameters()) and 'inplace' not in f['name'] and 'learnable' not in f['name']
             opt_a = SGD(a.parameters(), lr=0.05) if use_outer else None
             try:
